@@ -64,6 +64,12 @@ Proof. intros s R. apply drained_not_idle, reachable_inv, R. Qed.
 Theorem C07_oracle_sound : forall s, reachable s -> check_C07 (complete s) (log s) = true.
 Proof. exact check_C07_sound. Qed.
 
+(* the deterministic drivers used by the correspondence runs only compose steps: every state
+   the model is compared on is a reachable state, so all theorems above apply to it
+   (ps: threads the harness actor's post_stop releases before the ports are dropped) *)
+Theorem C07_exec_reachable : forall ps acts, reachable (exec_ps ps acts).
+Proof. exact exec_reachable. Qed.
+
 (* ---- statement pins ---- *)
 Check (C07_marker_unique : forall s, reachable s -> markers (hist s) <= 1).
 Check (C07_idempotent : forall s, reachable s -> In Marker (hist s) ->
@@ -108,3 +114,4 @@ Print Assumptions C07_idempotent.
 Print Assumptions C07_drained_once.
 Print Assumptions C07_not_idle_forever.
 Print Assumptions C07_oracle_sound.
+Print Assumptions C07_exec_reachable.
